@@ -389,6 +389,9 @@ func genAppOp(r *hx.Rand, ps int) Op {
 
 // GenC01 generates a history over the C01 operation set (litestream stays up).
 func GenC01(r *hx.Rand, thorough bool) History {
+	if r.Chance(6) {
+		return genLongWALRace(r)
+	}
 	h := History{Cfg: GenCfg(r, thorough)}
 	n := 8 + r.Intn(25)
 	reader := false
@@ -552,7 +555,39 @@ func GenC04(r *hx.Rand, thorough bool) History {
 // GenC02 generates histories for the TXID/commit correspondence: litestream
 // syncs, checkpoints, snapshots and compactions run while a concurrent
 // application writer commits multi-statement transactions and rolls some back.
+// genLongWALRace: a long replicated WAL (tens to hundreds of frames, small pages), then a
+// RESTART/FULL checkpoint by litestream while a small application transaction is in flight and
+// commits between the copy before the checkpoint and the checkpoint itself; then writes to other
+// pages. The frame arithmetic that notices the racing commit depends on the WAL length.
+func genLongWALRace(r *hx.Rand) History {
+	ps := []int{512, 512, 1024, 4096}[r.Intn(4)]
+	h := History{Cfg: Cfg{PageSize: ps, AutoVacuum: "none", MinCheckpointPageN: 100000, TruncatePageN: 500000}}
+	batches := 2 + r.Intn(6)
+	for i := 0; i < batches; i++ {
+		h.Ops = append(h.Ops, Op{K: "ins", A: 4 + r.Intn(8), B: ps*2 + r.Intn(ps*2)})
+		if r.Chance(60) {
+			h.Ops = append(h.Ops, Op{K: "sync"})
+		}
+	}
+	h.Ops = append(h.Ops, Op{K: "syncwait"})
+	h.Ops = append(h.Ops, Op{K: "cwhold", A: 80 + r.Intn(250), B: []int{10, 10, 100}[r.Intn(3)]})
+	h.Ops = append(h.Ops, Op{K: "lckpt", S: []string{"RESTART", "FULL", "RESTART", "TRUNCATE"}[r.Intn(4)]})
+	h.Ops = append(h.Ops, Op{K: "cwait"})
+	for i := 0; i < 1+r.Intn(3); i++ {
+		h.Ops = append(h.Ops, genAppOp(r, ps))
+		h.Ops = append(h.Ops, Op{K: "sync"})
+	}
+	if r.Chance(40) {
+		h.Ops = append(h.Ops, Op{K: "snap"})
+	}
+	h.Ops = append(h.Ops, Op{K: "syncwait"})
+	return h
+}
+
 func GenC02(r *hx.Rand, thorough bool) History {
+	if r.Chance(15) {
+		return genLongWALRace(r)
+	}
 	h := History{Cfg: GenCfg(r, thorough)}
 	ps := h.Cfg.PageSize
 	n := 6 + r.Intn(18)
